@@ -48,12 +48,14 @@ pub struct Gen {
     /// the crossbeam Uni channel's setter-based sends may meet a full buffer after their fullness test (they then *wait*, by documented
     /// design: the retry loop holds scheduling points, so the consumers get their turns and the send completes once there is room)
     pub crossbeam_setters_may_wait: bool,
+    /// some consumers drop their stream by themselves after 1..3 items (listeners that leave during the run), without anybody joining late
+    pub leavers: bool,
 }
 
 impl Default for Gen {
     fn default() -> Self {
         Gen { kinds: &UNI_KINDS, max_streams: &[1, 2, 4], buffers: &[2, 4, 8], max_producers: 3, max_ops: 3, max_consumers: 3, retry: false, fresh_wakers: false,
-              origins: false, prefill: false, canceller: false, churn: false, handles: false, async_ops: false, min_consumers: 1, drop_on_end: false, end_all: false, end_one: false, reserve_ops: false, crossbeam_setters_may_wait: false }
+              origins: false, prefill: false, canceller: false, churn: false, handles: false, async_ops: false, min_consumers: 1, drop_on_end: false, end_all: false, end_one: false, reserve_ops: false, crossbeam_setters_may_wait: false, leavers: false }
     }
 }
 
@@ -144,12 +146,13 @@ pub fn case_strategy(g: Gen) -> BoxedStrategy<ChanCase> {
             }
             let fresh = if g.fresh_wakers { vec(0u8..5, 0..2).boxed() } else { Just(vec![]).boxed() };
             let churn = g.churn;
+            let leavers = g.leavers;
             let handles = g.handles;
             let drop_on_end = g.drop_on_end;
             let consumer = (0u8..3, fresh, any::<u8>(), 1u8..4, any::<u8>()).prop_map(move |(hold, fresh_waker_at, c, n, h)| Consumer {
                 hold, fresh_waker_at,
                 create_late: churn && c % 3 == 1,
-                stop_after: if churn && c % 3 == 2 { Some(n) } else { None },
+                stop_after: if (churn || leavers) && c % 3 == 2 { Some(n) } else { None },
                 clone_handle: handles && h & 1 == 1,
                 into_shared: handles && h & 2 == 2,
                 max_items: None,
@@ -227,7 +230,7 @@ pub fn decode_chan(u: &mut arbitrary::Unstructured<'_>, g: &Gen) -> Option<ChanC
     for _ in 0..n_cons {
         let (c, n, h) = (b(u), 1 + b(u) % 3, b(u));
         let fresh_waker_at = if g.fresh_wakers && h & 8 == 8 { vec![b(u) % 5] } else { vec![] };
-        consumers.push(Consumer { hold: b(u) % 3, fresh_waker_at, create_late: g.churn && c % 3 == 1, stop_after: if g.churn && c % 3 == 2 { Some(n) } else { None },
+        consumers.push(Consumer { hold: b(u) % 3, fresh_waker_at, create_late: g.churn && c % 3 == 1, stop_after: if (g.churn || g.leavers) && c % 3 == 2 { Some(n) } else { None },
                                   clone_handle: g.handles && h & 1 == 1, into_shared: g.handles && h & 2 == 2, max_items: None, drop_on_end: g.drop_on_end && h & 4 == 4, resubscribe: None });
     }
     let prefill = if g.prefill { match b(u) % 7 { 0 | 1 | 2 => 0, 3 => 1, 4 => buffer - 1, 5 => buffer, _ => b(u) % (buffer + 1) } } else { 0 };
@@ -489,7 +492,7 @@ impl Property for C01Uni {
         case_strategy(Gen { kinds: &UNI_KINDS, max_streams: &[1, 2, 4, 8, 16], buffers: &[2, 4, 8, 16, 64], max_producers: 3, max_ops: 4, max_consumers: 3, retry: true, fresh_wakers: false, origins: true, prefill: true, crossbeam_setters_may_wait: true, ..Default::default() })
     }
     fn decode(&self, u: &mut arbitrary::Unstructured<'_>) -> Option<ChanCase> { crate::props::uni::decode_chan(u, &Gen { kinds: &UNI_KINDS, max_streams: &[1, 2, 4, 8, 16], buffers: &[2, 4, 8, 16, 64], max_producers: 3, max_ops: 4, max_consumers: 3, retry: true, fresh_wakers: false, origins: true, prefill: true, crossbeam_setters_may_wait: true, ..Default::default() }) }
-    fn cases(&self, tier: Tier) -> u32 { match tier { Tier::Quick => 6_000, Tier::Thorough => 150_000 } }
+    fn cases(&self, tier: Tier) -> u32 { match tier { Tier::Quick => 24_000, Tier::Thorough => 240_000 } }
     fn run(&self, case: &ChanCase) -> RunReport {
         let run = execute(case, Epilogue { drain: true, ..Default::default() });
         let judged = if run.end == EndState::Completed { judge_delivery_uni(case, &run) } else { None };
@@ -513,7 +516,7 @@ impl Property for C02Uni {
         case_strategy(Gen { kinds: &UNI_KINDS, max_streams: &[1, 2, 4], buffers: &[2, 4], max_producers: 3, max_ops: 3, max_consumers: 3, retry: false, fresh_wakers: false, origins: true, prefill: true, ..Default::default() })
     }
     fn decode(&self, u: &mut arbitrary::Unstructured<'_>) -> Option<ChanCase> { crate::props::uni::decode_chan(u, &Gen { kinds: &UNI_KINDS, max_streams: &[1, 2, 4], buffers: &[2, 4], max_producers: 3, max_ops: 3, max_consumers: 3, retry: false, fresh_wakers: false, origins: true, prefill: true, ..Default::default() }) }
-    fn cases(&self, tier: Tier) -> u32 { match tier { Tier::Quick => 6_000, Tier::Thorough => 150_000 } }
+    fn cases(&self, tier: Tier) -> u32 { match tier { Tier::Quick => 18_000, Tier::Thorough => 200_000 } }
     fn run(&self, case: &ChanCase) -> RunReport {
         let run = execute(case, Epilogue { drain: true, ..Default::default() });
         let judged = if run.end == EndState::Completed { judge_fifo_uni(case, &run) } else { None };
@@ -537,7 +540,7 @@ impl Property for C04Uni {
         case_strategy(Gen { kinds: &UNI_KINDS, max_streams: &[1, 2], buffers: &[2, 4, 8], max_producers: 3, max_ops: 3, max_consumers: 2, retry: true, fresh_wakers: true, origins: false, prefill: true, ..Default::default() })
     }
     fn decode(&self, u: &mut arbitrary::Unstructured<'_>) -> Option<ChanCase> { crate::props::uni::decode_chan(u, &Gen { kinds: &UNI_KINDS, max_streams: &[1, 2], buffers: &[2, 4, 8], max_producers: 3, max_ops: 3, max_consumers: 2, retry: true, fresh_wakers: true, origins: false, prefill: true, ..Default::default() }) }
-    fn cases(&self, tier: Tier) -> u32 { match tier { Tier::Quick => 8_000, Tier::Thorough => 200_000 } }
+    fn cases(&self, tier: Tier) -> u32 { match tier { Tier::Quick => 20_000, Tier::Thorough => 240_000 } }
     fn run(&self, case: &ChanCase) -> RunReport {
         let run = execute(case, Epilogue { drain: true, ..Default::default() });
         let judged = if run.end == EndState::Completed { judge_wakeup_uni(case, &run) } else { None };
@@ -646,7 +649,7 @@ impl Property for C03Multi {
         case_strategy(Gen { kinds: &MULTI_KINDS, max_streams: &[1, 2, 4, 8, 16], buffers: &[2, 4, 8, 16, 64], max_producers: 3, max_ops: 3, max_consumers: 3, retry: true, fresh_wakers: false, origins: true, prefill: true, ..Default::default() })
     }
     fn decode(&self, u: &mut arbitrary::Unstructured<'_>) -> Option<ChanCase> { crate::props::uni::decode_chan(u, &Gen { kinds: &MULTI_KINDS, max_streams: &[1, 2, 4, 8, 16], buffers: &[2, 4, 8, 16, 64], max_producers: 3, max_ops: 3, max_consumers: 3, retry: true, fresh_wakers: false, origins: true, prefill: true, ..Default::default() }) }
-    fn cases(&self, tier: Tier) -> u32 { match tier { Tier::Quick => 6_000, Tier::Thorough => 120_000 } }
+    fn cases(&self, tier: Tier) -> u32 { match tier { Tier::Quick => 24_000, Tier::Thorough => 240_000 } }
     fn run(&self, case: &ChanCase) -> RunReport {
         let run = execute(case, Epilogue { drain: true, ..Default::default() });
         let judged = if run.end == EndState::Completed { judge_delivery_multi(case, &run) } else { None };
@@ -671,7 +674,7 @@ impl Property for C04Multi {
         case_strategy(Gen { kinds: &MULTI_KINDS, max_streams: &[1, 2], buffers: &[2, 4, 8], max_producers: 3, max_ops: 3, max_consumers: 2, retry: true, fresh_wakers: true, origins: false, prefill: true, ..Default::default() })
     }
     fn decode(&self, u: &mut arbitrary::Unstructured<'_>) -> Option<ChanCase> { crate::props::uni::decode_chan(u, &Gen { kinds: &MULTI_KINDS, max_streams: &[1, 2], buffers: &[2, 4, 8], max_producers: 3, max_ops: 3, max_consumers: 2, retry: true, fresh_wakers: true, origins: false, prefill: true, ..Default::default() }) }
-    fn cases(&self, tier: Tier) -> u32 { match tier { Tier::Quick => 6_000, Tier::Thorough => 150_000 } }
+    fn cases(&self, tier: Tier) -> u32 { match tier { Tier::Quick => 16_000, Tier::Thorough => 200_000 } }
     fn run(&self, case: &ChanCase) -> RunReport {
         let run = execute(case, Epilogue { drain: true, ..Default::default() });
         let judged = if run.end == EndState::Completed { judge_wakeup_multi(case, &run) } else { None };
